@@ -325,6 +325,8 @@ def cff_tag(font):
 
 
 def subr_program(s):
+    if isinstance(s, list):
+        return list(s)
     if s.needsDecompilation():
         raise Skip("subroutine reached only outside glyph execution")
     return list(s.program)
@@ -405,15 +407,18 @@ def save_font(font):
     return b.getvalue()
 
 
-def font_rewrites(data, want=None, with_subr=True):
+def font_rewrites(data, want=None, with_subr=True, orig=None):
     """original sides and, per rewriting, the sides after it.
-    returns (orig: [(name, side)], rew: {rewriting: [(name, side)] | Exception}, adv: {name: advance})"""
+    returns (orig: [(name, side)], rew: {rewriting: [(name, side)] | Exception}, adv: {name: advance})
+    `orig` is given for fonts the harness built itself (the programs it put in, not what the real
+    decompiler reads back)"""
     from fontTools.cffLib.CFFToCFF2 import convertCFFToCFF2
     from fontTools.cffLib.CFF2ToCFF import convertCFF2ToCFF
 
     f0 = load_font(data)
     tag = cff_tag(f0)
-    orig = glyph_sides(f0)
+    if orig is None:
+        orig = glyph_sides(f0)
     adv = {}
     try:
         if "hmtx" in f0:
@@ -518,7 +523,8 @@ def keep_indices(label, n, cap):
     return set([0] + _rng_for(_CTX["seed"], "keep", label).sample(range(1, n), cap - 1))
 
 
-def font_traces(data, label, rng, want=None, with_subr=True, func_sample=None, pen=True, cap=None, pre=None):
+def font_traces(data, label, rng, want=None, with_subr=True, func_sample=None, pen=True, cap=None, pre=None,
+                orig=None):
     """all traces of one font: one font-level trace per glyph and one function-level trace
     per glyph on its desubroutinised program.  returns (traces, skips{reason: n}, notes)"""
     skips = {}
@@ -526,7 +532,7 @@ def font_traces(data, label, rng, want=None, with_subr=True, func_sample=None, p
     def skip(r, n=1):
         skips[r] = skips.get(r, 0) + n
 
-    orig, rew, adv = pre if pre is not None else font_rewrites(data, want, with_subr)
+    orig, rew, adv = pre if pre is not None else font_rewrites(data, want, with_subr, orig=orig)
     rew = {k: rew[k] for k in REWRITE_ORDER if k in rew}
     traces = []
     notes = {}
@@ -842,7 +848,12 @@ def build_font(glyphs, dw, nw, rng, subr_prob=0.7, pad_subrs=0):
     fb.setupNameTable({"familyName": "C12Test", "styleName": "Regular"})
     fb.setupOS2()
     fb.setupPost()
-    return save_font(fb.font)
+    fb.font.recalcBBoxes = False      # saving must not draw the glyphs
+    sides = []
+    for n, q in zip(names, [["endchar"]] + progs):
+        L, G = closure(q, lsub, gsub)
+        sides.append((n, mk_side("cff", q, L, len(lsub), G, len(gsub), (), 0, dw, nw)))
+    return save_font(fb.font), sides
 
 
 # --------------------------------------------------------------------------------------
@@ -872,8 +883,8 @@ def _work_built(item):
     gl = []
     for p, hasw, wval in glyphs:
         gl.append((dec_prog(p), width_of(hasw, wval, dw, nw)))
-    data = build_font(gl, dw, nw, rng, pad_subrs=pad)
-    tr, sk, notes = font_traces(data, "built-%d" % idx, rng, func_sample=0)
+    data, sides = build_font(gl, dw, nw, rng, pad_subrs=pad)
+    tr, sk, notes = font_traces(data, "built-%d" % idx, rng, func_sample=0, orig=sides)
     for t in tr:
         t["meta"]["kind"] = "built"
         t["meta"]["item"] = idx
